@@ -10,7 +10,8 @@
      ping answered.
    - [round_trip_end_to_end]: combined with WriterEventsP: the reader delivers exactly the data
      messages the abstract writer (Spec/WriterSpec.v) says were sent; the conditions "no close
-     frame" and "no message left open" are stated on the abstract run. *)
+     frame" and "no message left open" are stated on the abstract run; no condition on how the
+     program closes its writers. *)
 Require Import WS.Base.Bytes WS.gen.Consts WS.Spec.Frame WS.Spec.Conformance WS.Spec.WriterSpec WS.Proofs.FrameP.
 Require Import WS.Model.Writer WS.Cases.WriterCase.
 Require Import WS.Proofs.WWBase WS.Proofs.WWInv WS.Proofs.WWFlate WS.Proofs.WriterWireP.
@@ -172,11 +173,14 @@ Qed.
 Lemma Forall_snoc {A} (P:A->Prop) l x : Forall P l -> P x -> Forall P (l ++ [x]).
 Proof. intros H1 H2. apply Forall_app. split; [exact H1|constructor; [exact H2|constructor]]. Qed.
 
-Lemma astep_no_close a o r : a_dead (astep false a o r) = false -> implicit_ok a o ->
+(* no condition on the program: whatever puts a close message into the output (WriteMessage,
+   WriteControl, an explicit Close, the implicit close of a close-type writer) marks the abstract
+   writer dead *)
+Lemma astep_no_close a o r : a_dead (astep false a o r) = false ->
   Forall not_close (a_out a) -> Forall not_close (a_out (astep false a o r)).
 Proof.
-  destruct a as [ao ac out dd]. unfold implicit_ok, open_is_data, astep, not_close, is_control.
-  cbn [a_open a_comp a_out a_dead]. intros HD HI HF.
+  destruct a as [ao ac out dd]. unfold astep, not_close.
+  cbn [a_open a_comp a_out a_dead]. intros HD HF.
   destruct ((r =? 6) || (r =? 7)); destruct o; destruct (r =? 0); destruct ao as [[[t cf] d0]|]; destruct dd;
     cbn [andb a_open a_comp a_out a_dead] in *; try discriminate; try assumption;
     repeat match goal with
@@ -184,21 +188,23 @@ Proof.
            | |- context [if ?b then _ else _] => let E := fresh "E" in destruct b eqn:E
            end;
     cbn [andb a_open a_comp a_out a_dead] in *; try discriminate; try assumption;
-    repeat (apply Forall_snoc); try assumption; cbn [s_ty];
-    try (specialize (HI eq_refl)); lia.
+    repeat (apply Forall_snoc); try assumption; cbn [s_ty]; lia.
 Qed.
 
-Lemma arun_no_close l : forall a, a_dead (arun false a l) = false -> ctl_writers_closed a l ->
+Lemma arun_dead_mono l : forall a, a_dead a = true -> a_dead (arun false a l) = true.
+Proof.
+  induction l as [|[o r] l IH]; intros a E; cbn [arun]; [exact E|].
+  apply IH. apply astep_dead_mono. exact E.
+Qed.
+
+Lemma arun_no_close l : forall a, a_dead (arun false a l) = false ->
   Forall not_close (a_out a) -> Forall not_close (a_out (arun false a l)).
 Proof.
-  induction l as [|[o r] l IH]; intros a HD HC HF; cbn [arun ctl_writers_closed] in *; [exact HF|].
-  destruct HC as [HC1 HC2]. apply IH; [exact HD|exact HC2|].
-  apply astep_no_close; [|exact HC1|exact HF].
+  induction l as [|[o r] l IH]; intros a HD HF; cbn [arun] in *; [exact HF|].
+  apply IH; [exact HD|].
+  apply astep_no_close; [|exact HF].
   destruct (a_dead (astep false a o r)) eqn:E; [|reflexivity].
-  exfalso. assert (X : a_dead (arun false (astep false a o r) l) = true).
-  { clear - E. revert E. generalize (astep false a o r). induction l as [|[o' r'] l IH]; intros a0 E; cbn [arun]; [exact E|].
-    apply IH. apply astep_dead_mono. exact E. }
-  congruence.
+  exfalso. rewrite (arun_dead_mono l _ E) in HD. discriminate HD.
 Qed.
 
 (* ------------------------------------------------------------------------------------------ *)
@@ -211,7 +217,6 @@ Theorem round_trip_end_to_end :
     let r := wrun c (init_wst c ks None) ops in
     let prog := combine (map wop_aop ops) (map e_werr_N (fst r)) in
     let A := arun false ast0 prog in
-    ctl_writers_closed ast0 prog ->
     a_dead A = false ->              (* no close message was sent (and no transport error seen) *)
     a_open A = None ->               (* no message left open by the application *)
     server cr = negb (w_server c) -> custom_handlers cr = false ->
@@ -225,14 +230,14 @@ Theorem round_trip_end_to_end :
       Forall wf_frame fs /\ wire_of (evs (snd r)) = encode_frames fs /\
       wlog s_r = map WPong (pings_of (body fs)).
 Proof.
-  intros inflate c ks ops cr b extra HB1 HB2 HN HK HS HP r prog A HC HD HO HR HCh Hb Hbs HL Hpend Hex dm.
+  intros inflate c ks ops cr b extra HB1 HB2 HN HK HS HP r prog A HD HO HR HCh Hb Hbs HL Hpend Hex dm.
   destruct (wire_wellformed_negotiated c ks ops HB2 HK HS HP (or_introl HN)) as (fs & A0 & B0 & C0).
   fold r in A0.
-  destruct (wire_events_and_boundary c ks ops fs HB1 HB2 HN HK HS HP HC B0 A0) as [EV BD].
+  destruct (wire_events_and_boundary c ks ops fs HB1 HB2 HN HK HS HP B0 A0) as [EV BD].
   fold r prog A in EV, BD.
   assert (NC : Forall (fun f => opcode f <> 8) fs).
   { apply no_close_event_no_close_frame. rewrite EV.
-    apply (arun_no_close prog ast0 HD HC). constructor. }
+    apply (arun_no_close prog ast0 HD). constructor. }
   assert (OA : open_after false (map (fun f => (f, true)) fs) = false).
   { pose proof (open_after_events fs None) as X. rewrite (BD HD HO) in X. symmetry. exact X. }
   assert (HL' : blen (encode_frames fs) < 2^63) by (rewrite <- A0; exact HL).
@@ -281,7 +286,6 @@ Proof.
   - repeat constructor.
   - repeat constructor; unfold small; vm_compute; reflexivity.
   - repeat constructor.
-  - vm_compute. repeat split; intros; try reflexivity; exact I.
   - vm_compute. reflexivity.
   - vm_compute. reflexivity.
   - reflexivity.
